@@ -641,7 +641,7 @@ func writeEvidence(path, prop, tier string, seed uint64, level string, s *worker
 			faults[k] = v
 		}
 	}
-	var warnings []string
+	warnings := []string{}
 	for _, p := range sim.ExpectedProbes(prop) {
 		if s.Probes[p]+s.Faults[p] == 0 {
 			warnings = append(warnings, "probe never fired: "+p)
